@@ -36,23 +36,30 @@ def main():
         else:
             verdict, mech = 'MISSED', '-'
         h = 'history' in m
+        u = 'unreported' in m
         rnd = m['id'].split('-')[0]
-        per_round.setdefault(rnd, [0, 0])
-        per_round[rnd][1 if h else 0] += 1
+        per_round.setdefault(rnd, [0, 0, 0])
+        per_round[rnd][2 if u else 1 if h else 0] += 1
         if h:
             hist.append('   * **%s** — %s' % (m['id'], m['history']))
+        if u:
+            hist.append('   * **%s** — %s' % (m['id'], m['unreported']))
+            verdict = 'not reported'
         rows.append('| %s | %s | %s | %s | %s |' % (
             m['id'], first.replace('|', '/'), verdict, mech.replace('|', '/'),
-            'after widening' if h else 'at once'))
+            'no (see above)' if u else 'after widening' if h else 'at once'))
     matrix = ('| seeded change | what it is (first line of the author\'s '
               'notes) | quick check(s) | first mechanism reported | caught |\n'
               '|---|---|---|---|---|\n' + '\n'.join(rows) + '\n')
-    total = sum(a + b for a, b in per_round.values())
-    once = sum(a for a, b in per_round.values())
+    total = sum(sum(v) for v in per_round.values())
+    once = sum(v[0] for v in per_round.values())
+    later = sum(v[1] for v in per_round.values())
     matrix += '\n   Summary: %d seeded changes, %d reported at once, %d only ' \
-        'after the workloads were widened (%s).\n' % (
-            total, once, total - once, '; '.join(
-                '%s %d/%d' % (r, per_round[r][0], per_round[r][1])
+        'after the workloads were widened, %d not reported (at once / after ' \
+        'widening / not reported per round: %s).\n' % (
+            total, once, later, total - once - later, '; '.join(
+                '%s %d/%d/%d' % (r, per_round[r][0], per_round[r][1],
+                                 per_round[r][2])
                 for r in sorted(per_round)))
     p = os.path.join(HERE, 'DESIGN.md')
     s = open(p).read()
@@ -68,13 +75,11 @@ def main():
         f.write(subprocess.check_output(
             ['python3', os.path.join(HERE, 'tools', 'seed_matrix.py')],
             text=True))
-    total = sum(a + b for a, b in per_round.values())
-    once = sum(a for a, b in per_round.values())
-    print('total %d, at once %d, after widening %d' % (total, once,
-                                                       total - once))
+    print('total %d, at once %d, after widening %d, not reported %d'
+          % (total, once, later, total - once - later))
     for r in sorted(per_round):
-        print('  %s: %d at once, %d after widening' % (r, per_round[r][0],
-                                                       per_round[r][1]))
+        print('  %s: %d at once, %d after widening, %d not reported'
+              % (r, per_round[r][0], per_round[r][1], per_round[r][2]))
 
 
 if __name__ == '__main__':
